@@ -410,7 +410,7 @@ def run_check(mod, tier, seed, only=None):
             infra = res['msg']
             break
         if res['status'] == 'dropped':
-            total.stats['load-induced-timeouts-dropped'] += 1
+            total.stats['dropped:' + res['msg'][:60]] += 1
             continue
         key = (res['status'], res.get('known_id'), res.get('path'))
         if res['status'] == 'known':
@@ -450,6 +450,19 @@ def process_finding(mod, ctx, f, seed):
     ctx.run_timeout = 20 if f.cls == 'hang' else 30
     r1 = recheck(mod, ctx, case, f.cls)
     r2 = recheck(mod, ctx, case, f.cls)
+    if f.cls == 'tsan-race' and not (r1[0] and r2[0]):
+        # free-running mode is runtime monitoring, not simulation: whether ThreadSanitizer sees the
+        # two accesses unordered depends on the real schedule.  Confirm on 3 of up to 6 attempts.
+        hits = int(r1[0]) + int(r2[0])
+        for _ in range(4):
+            rr = recheck(mod, ctx, case, f.cls)
+            hits += int(rr[0])
+            if rr[0]:
+                r1 = r2 = rr
+            if hits >= 3:
+                break
+        if hits < 3:
+            return {'status': 'dropped', 'msg': 'ThreadSanitizer report reproduced only %d times in 6 attempts' % hits}
     if f.cls == 'hang' and not r1[0] and not r2[0]:
         # the run finished when given more time: the machine was busy
         return {'status': 'dropped', 'msg': 'time-out did not reproduce when the plan was run alone with a 20 s cap'}
